@@ -69,6 +69,10 @@ def cd_cases(inst, rnd, thorough):
     return cases
 
 
+# hint sites outside GlGadgets' four inside this code region are probed with generic alternatives after run() (bin/check, common.Ctx.foreign)
+FOREIGN = ((), ("testdata", "random"))
+
+
 def run(ctx):
     ctx.rule = ("(instance, k, leaf, perturbation): every (leaf class, selected flag) x {+1,-1,random,swap,zero} with seeded positions, the circuit digest, "
                 "the other circuit's verifier data; circuit-description changes: coset shifts k_is[j], selector indices, group bounds, gate identifiers and "
